@@ -139,6 +139,7 @@ class ProgTr:
     def __init__(self, tree: ast.Module, defaults: typing.Dict[str, typing.Dict[str, str]]):
         self.tree = tree
         self.defaults = defaults
+        self.lists_deps = False
 
     def kwargs(self, call: ast.Call, meth: str, bt: BexpTr, wanted: typing.Sequence[str]) -> typing.List[str]:
         if call.args:
@@ -175,6 +176,10 @@ class ProgTr:
             (omit,) = self.kwargs(g[1], 'get_templates', bt, ['omit_serialization_support'])
             return '(Do (DoListTemplates %s %s))' % (g[0], omit)
         src = _u(things)
+        if src == 'self._dependency_source_files()' and _u(to_string) == 'lambda p: str(p.as_posix())':
+            # the repair of F-LIST-INPUTS-LOOKUP; the helper itself must have the pinned shape (variant_of below)
+            self.lists_deps = True
+            return '(Do DoListDepSources)'
         if _u(to_string) == 'lambda p: str(p.source_file_path.as_posix())':
             if src == '[x for x, _ in self._root_namespace.get_all_types()]':
                 return '(Do (DoListSources true))'
@@ -545,8 +550,9 @@ def coq_tfile(name: str, path: str, suffix: str = '.j2') -> str:
     j2 = name.endswith(suffix) and os.path.splitext(name)[1] == suffix
     stem = os.path.splitext(os.path.basename(name))[0]
     cls = CLS_OF_STEM.get(stem) if (j2 and '/' not in name) else None
-    return '{| tf_name := %s; tf_path := %s; tf_j2 := %s; tf_cls := %s |}' % (
-        s2c(name), coq_path(path), 'true' if j2 else 'false', ('Some %s' % cls) if cls else 'None')
+    py = os.path.splitext(name)[1] in ('.py', '.pyc', '.pyo') or '__pycache__' in name.split('/')
+    return '{| tf_name := %s; tf_path := %s; tf_j2 := %s; tf_py := %s; tf_cls := %s |}' % (
+        s2c(name), coq_path(path), 'true' if j2 else 'false', 'true' if py else 'false', ('Some %s' % cls) if cls else 'None')
 
 
 def lang_data() -> typing.Dict[str, dict]:
@@ -591,7 +597,11 @@ def gen_listing() -> typing.Tuple[bool, str]:
         sgs = tr_return_fn(find_function(rr, 'ArgparseRunner', '_should_generate_support'), BexpTr(('self._args',), set()))
         if 'BShouldGenSupport' in sgs or 'BLocalOmit' in sgs or 'BGenNsTypes' in sgs:
             raise Unsupported('_should_generate_support refers to run-time state')
-        prog = ProgTr(rr, defaults).stmts(find_function(rr, 'ArgparseRunner', 'run').body, BexpTr(('self._args',), set()), 1)
+        ptr = ProgTr(rr, defaults)
+        prog = ptr.stmts(find_function(rr, 'ArgparseRunner', 'run').body, BexpTr(('self._args',), set()), 1)
+        if ptr.lists_deps and variant_of('depsrc') != 'fix':
+            raise Unsupported('_dependency_source_files does not have the pinned shape')
+        tpl_variant, sup_variant = variant_of('tplenum'), variant_of('supenum')
         fields = [
             ('k_sgs', sgs), ('k_reject', tr_reject(cc)), ('k_read', tr_read_cond(rr)), ('k_prog', prog),
             ('k_ns_arg', tr_ns_arg(rr)), ('k_ns_decide', tr_ns_decide(gg)), ('k_sup_tpl', tr_sup_templates(jj)),
@@ -599,6 +609,9 @@ def gen_listing() -> typing.Tuple[bool, str]:
             ('k_guard_header', leaf_guard(jj, 'SupportGenerator', '_generate_header')),
             ('k_guard_copy', leaf_guard(jj, 'SupportGenerator', '_copy_header')),
             ('k_types_all_when_ns', tr_types_loop(jj)),
+            ('k_fix_lookup', 'true' if ptr.lists_deps else 'false'),
+            ('k_fix_nonj2', 'true' if tpl_variant == 'fix' else 'false'),
+            ('k_fix_suptpl', 'true' if sup_variant == 'fix' else 'false'),
         ]
         data = lang_data()
         parts = ['Definition the_code : code := {|\n%s |}.' % ';\n'.join('  %s := %s' % f for f in fields)]
@@ -612,24 +625,98 @@ def gen_listing() -> typing.Tuple[bool, str]:
 
 
 # ---------------------------------------------------------------------------------------------
-# shape pin of the enumeration logic that Gen/Listing.v models by hand (listed_templates, chain, resolve_name, support_resources)
+# shape pins of the enumeration logic that Gen/Listing.v models by hand (listed_templates, chain, resolve_name, support_resources,
+# listed_dep_sources).  Parts with several recognised shapes ("variants": the tree as found and the tree with one of the
+# --list-inputs repairs of design_notes/C08_fix_*.patch) select the corresponding behaviour of the model (k_fix_*).
+# Pins live in tools/translators/pins/c08_enum.json, written at development time only by
+#   VERIF_REPO=<tree> python -m tools.translators.gen_c08 --update-pins
 # ---------------------------------------------------------------------------------------------
-ENUM_PIN = [
-    ('src/nunavut/jinja/loaders.py', 'DSDLTemplateLoader.__init__'),
-    ('src/nunavut/jinja/loaders.py', 'DSDLTemplateLoader.get_source'),
-    ('src/nunavut/jinja/loaders.py', 'DSDLTemplateLoader.get_templates'),
-    ('src/nunavut/jinja/loaders.py', 'DSDLTemplateLoader._filter_template_list_by_suffix'),
-    ('src/nunavut/jinja/__init__.py', 'CodeGenerator.get_templates'),
-    ('src/nunavut/jinja/__init__.py', 'SupportGenerator.get_templates'),
-    ('src/nunavut/jinja/__init__.py', 'SupportGenerator._get_templates_by_support_type'),
-    ('src/nunavut/lang/_language.py', 'Language.get_support_files'),
-    ('src/nunavut/_utilities.py', 'iter_package_resources'),
+JL, JI, RU = 'src/nunavut/jinja/loaders.py', 'src/nunavut/jinja/__init__.py', 'src/nunavut/cli/runners.py'
+PIN_COMMON = [
+    (JL, 'DSDLTemplateLoader.__init__'), (JL, 'DSDLTemplateLoader.get_source'), (JL, 'DSDLTemplateLoader._filter_template_list_by_suffix'),
+    (JI, 'CodeGenerator.get_templates'), (JI, 'SupportGenerator.get_templates'), (JI, 'CodeGenerator._generate_code'),
+    ('src/nunavut/lang/_language.py', 'Language.get_support_files'), ('src/nunavut/_utilities.py', 'iter_package_resources'),
 ]
+PIN_VARIANTS = {
+    'tplenum': {'orig': [(JL, 'DSDLTemplateLoader.get_templates')],
+                'fix': [(JL, 'DSDLTemplateLoader.get_templates'), (JL, '_is_template_resource')]},
+    'supenum': {'orig': [(JI, 'SupportGenerator._get_templates_by_support_type')],
+                'fix': [(JI, 'SupportGenerator._get_templates_by_support_type'), (JI, 'SupportGenerator._rendered_template')]},
+    'depsrc': {'fix': [(RU, 'ArgparseRunner._dependency_source_files')]},
+}
+PIN_FILE = os.path.join(os.path.dirname(os.path.abspath(__file__)), 'pins', 'c08_enum.json')
+
+
+def _dump(targets) -> typing.Optional[str]:
+    from . import shape_pin
+    try:
+        return '\n'.join('## %s:%s\n%s' % (p, q, shape_pin.normalized_dump(p, q)) for p, q in targets) + '\n'
+    except (OSError, KeyError, SyntaxError, AssertionError):
+        return None
+
+
+def _pins() -> dict:
+    with open(PIN_FILE, encoding='utf-8') as f:
+        return json.load(f)
+
+
+def variant_of(part: str) -> typing.Optional[str]:
+    """name of the pinned variant the tree under test has for `part` (the richest first), None when it has none of them"""
+    pins = _pins()
+    for name in ('fix', 'orig'):
+        targets = PIN_VARIANTS[part].get(name)
+        if targets is not None and pins.get(part, {}).get(name) is not None and _dump(targets) == pins[part][name]:
+            return name
+    return None
 
 
 def pin_c08_enum() -> typing.Tuple[bool, str]:
-    from . import shape_pin
-    return shape_pin.check_pin('c08_enum', ENUM_PIN)
+    out = os.path.join(gen.GEN_DIR, 'Gen_Pin_c08_enum.v')
+    head = gen.HEADER % 'the enumeration functions listed in tools/translators/gen_c08.py (PIN_COMMON, PIN_VARIANTS)'
+    why = None
+    try:
+        if _dump(PIN_COMMON) != _pins().get('common'):
+            why = 'one of %s changed shape' % ', '.join(q for _, q in PIN_COMMON)
+        else:
+            for part in ('tplenum', 'supenum'):
+                if variant_of(part) is None:
+                    why = '%s has none of the pinned shapes' % PIN_VARIANTS[part]['orig'][0][1]
+    except (OSError, ValueError) as ex:
+        why = 'pin file unreadable: %r' % (ex,)
+    if why:
+        gen.write_if_changed(out, head + '(* shape pin failed closed: %s -- the hand model is no longer known to describe the code *)\n' % why)
+        return False, 'shape pin c08_enum: ' + why
+    gen.write_if_changed(out, head + 'Definition pin_c08_enum_ok : bool := true.\n')
+    return True, 'ok'
+
+
+def update_pins() -> None:
+    """record the shapes of the tree VERIF_REPO points to (common part always; of each variant part the variant the tree has:
+    `fix` when the repair's helper function exists, else `orig`)"""
+    try:
+        pins = _pins()
+    except (OSError, ValueError):
+        pins = {}
+    common = _dump(PIN_COMMON)
+    assert common is not None
+    pins['common'] = common
+    for part, variants in PIN_VARIANTS.items():
+        d = _dump(variants['fix'])
+        name = 'fix'
+        if d is None and 'orig' in variants:
+            d, name = _dump(variants['orig']), 'orig'
+        if d is not None:
+            pins.setdefault(part, {})[name] = d
+            print('pinned', part, name)
+    os.makedirs(os.path.dirname(PIN_FILE), exist_ok=True)
+    with open(PIN_FILE, 'w', encoding='utf-8') as f:
+        json.dump(pins, f, indent=1, sort_keys=True)
+        f.write('\n')
 
 
 GENERATORS = {'listing': gen_listing, 'pin_c08_enum': pin_c08_enum}
+
+if __name__ == '__main__':
+    import sys
+    if sys.argv[1:] == ['--update-pins']:
+        update_pins()
